@@ -142,6 +142,42 @@ func ruleConcatRank(c *Ctx, rule string) {
 			c.R.Add(rule, c.fk(f), construct, c.pos(in), good, ifelse(good, "operands in non-decreasing locality rank: "+strings.Join(desc, ", "), "the middleware list is built as "+strings.Join(desc, " ++ ")+": an outer layer ends up inside an inner one"))
 		})
 	}
+	// list construction must not write into a slice the function does not own: append(x, ...) whose result
+	// goes anywhere but back into x may reuse x's backing array (spare capacity) and overwrite the caller's data
+	for _, f := range c.libFuncs() {
+		if !strings.HasPrefix(c.fk(f), "mux.") {
+			continue
+		}
+		an.AllInstrs(f, func(in ssa.Instruction) {
+			call, ok := builtinCall(in, "append")
+			if !ok || len(call.Args) == 0 {
+				return
+			}
+			v, isVal := in.(ssa.Value)
+			if !isVal || !isMiddlewareSlice(v.Type()) {
+				return
+			}
+			first := call.Args[0]
+			fap := an.AP(first)
+			owned := false
+			switch first.(type) {
+			case *ssa.Const, *ssa.MakeSlice, *ssa.Slice:
+				owned = true // nil / fresh / explicit reslice
+			}
+			if t := c.O.Of(first); t.Op == "call" && (t.S == "slices.Clone" || t.S == "slices.Concat") {
+				owned = true
+			}
+			// result stored back into the same location
+			back := false
+			for _, r := range *v.Referrers() {
+				if st, ok := r.(*ssa.Store); ok && st.Val == v && an.AP(st.Addr) == fap {
+					back = true
+				}
+			}
+			good := owned || back
+			c.R.Add(rule, c.fk(f), "append:"+fap+"/no-foreign-backing-array", c.pos(in), good, ifelse(good, "appends onto its own slice (stored back) or a fresh one", "append("+fap+", …) builds a middleware list on top of a slice this function does not own: with spare capacity it overwrites the caller's (or another route's) elements, so a route can receive another route's middlewares"))
+		})
+	}
 	for _, k := range []string{"mux.(*Router).Use", "mux.(*Group).Use"} {
 		f := c.P.MustFunc(k)
 		found := false
@@ -157,6 +193,15 @@ func ruleConcatRank(c *Ctx, rule string) {
 			c.R.Add(rule, k, "append:ms=old++new", c.P.Pos(f.Pos()), false, "Use no longer records the middlewares for later registrations")
 		}
 	}
+}
+
+func isMiddlewareSlice(t types.Type) bool {
+	sl, ok := t.Underlying().(*types.Slice)
+	if !ok {
+		return false
+	}
+	n, ok := types.Unalias(sl.Elem()).(*types.Named)
+	return ok && n.Obj().Name() == "Middleware"
 }
 
 // ruleRetroactive is C09.R3.
@@ -229,6 +274,15 @@ func ruleRetroactive(c *Ctx, rule string) {
 	})
 	c.R.Add(rule, c.fk(nodeApply), "walk:every-handler", c.P.Pos(nodeApply.Pos()), okMap, ifelse(okMap, "every entry of the handler map is rewritten unconditionally", "not every entry of a node's handler map is rewritten"))
 	c.R.Add(rule, c.fk(nodeApply), "walk:every-child", c.P.Pos(nodeApply.Pos()), okKids, ifelse(okKids, "every child is visited with the same list, unconditionally", "the retroactive walk skips children or passes another list"))
+	// the walk starts at the root node itself (it owns the OPTIONS * handler and its 405)
+	rootWalk := (&an.Query{
+		Target: func(t ssa.Instruction) bool { _, ok := t.(*ssa.Return); return ok },
+		Block: func(t ssa.Instruction) bool {
+			call, ok := calleeIs(t, nodeApply)
+			return ok && an.AP(call.Args[0]) == "recv."+a.FRootNode && an.AP(call.Args[1]) == "p:ms"
+		},
+	}).Search(an.Entry(treeApply)) == nil
+	c.R.Add(rule, c.fk(treeApply), "walk:starts-at-root-node", c.P.Pos(treeApply.Pos()), rootWalk, ifelse(rootWalk, "every path walks the tree from the root node with the new list", "the retroactive walk does not start at the root node: the handlers the root owns (OPTIONS * and its 405) never receive Use middlewares"))
 	// (c) trace rewrite guarded only by hasTrace; notFound unguarded
 	an.AllInstrs(treeApply, func(in ssa.Instruction) {
 		base, field, _, ok := fieldStoreAny(in)
@@ -288,6 +342,12 @@ func ruleRetroactive(c *Ctx, rule string) {
 		}
 	})
 	c.R.Add(rule, c.fk(gadd), "applies-group-list-once", c.P.Pos(gadd.Pos()), n == 1 && okArg, ifelse(n == 1 && okArg, "r.Use(g.ms...) exactly once", fmt.Sprintf("Group.Add applies the group's middlewares %d times (argument ok: %v)", n, okArg)))
+	an.AllInstrs(gadd, func(in ssa.Instruction) {
+		if _, ok := calleeIs(in, use); ok {
+			dom := an.DominatedByEdge(in, noDuplicateNameEdge)
+			c.R.Add(rule, c.fk(gadd), "applies-only-after-duplicate-check", c.pos(in), dom, ifelse(dom, "the group's middlewares are applied only when the router is accepted", "Group.Add wraps the router's handlers before the duplicate-name check: a rejected Add leaves them wrapped, and adding the router again applies the group's middlewares twice"))
+		}
+	})
 }
 
 // unconditionalInLoop: the instruction's block is entered from the loop header only (no extra condition in the body).
